@@ -1612,6 +1612,7 @@ func (self *PriorityMutex) Lock() {
 		self.highPriorityMutex.Lock()
 		self.highPriorityMutex.Unlock()
 	}
+	verifPoint(12)
 	self.mutex.Lock()
 	if atomic.LoadUint32(&self.highPriority) != 0 {
 		for {
